@@ -145,7 +145,7 @@ func subsetsOf(xs []string, maxN int) [][]string {
 	var out [][]string
 	for mask := 1; mask < 1<<n; mask++ {
 		var s []string
-		for i := 0; i < n && !timeUp("props_tree.go:148"); i++ {
+		for i := 0; i < n; i++ {
 			if mask&(1<<i) != 0 {
 				s = append(s, xs[i])
 			}
@@ -204,7 +204,7 @@ func runTreeProperty(check func(k *kase, withCorr bool) *failure, nRandom int, m
 			}
 		}
 	}
-	for i := 0; i < nRandom; i++ {
+	for i := 0; i < nRandom && !timeUp("runTreeProperty random cases"); i++ {
 		c := genTreeCase(maxDepth, 6)
 		try(c.kase())
 	}
